@@ -30,7 +30,9 @@ def handle : Handler := fun op j =>
             | some "qualified" => some Form.qualified
             | some "unqualified" => some Form.unqualified
             | _ => none⟩⟩
-    let r := consolidate (nodeOf (jget j "first")) (nodeOf (jget j "second"))
+    let outer : PrefixTable := (jarr j "outer").toList.map (fun pu => ((asStr? ((asArr pu)[0]?.getD Json.null)).getD "",
+                                                                        (asStr? ((asArr pu)[1]?.getD Json.null)).getD ""))
+    let r := consolidateIn outer (nodeOf (jget j "first")) (nodeOf (jget j "second"))
     let formStr : Form → String := fun f => match f with | .qualified => "qualified" | .unqualified => "unqualified"
     some (Json.mkObj [
       ("prefixes", Json.arr (r.prefixes.map fun pu => Json.arr #[.str pu.1, .str pu.2]).toArray),
